@@ -19,6 +19,8 @@ import (
 
 	gethabi "github.com/ethereum/go-ethereum/accounts/abi"
 
+	"github.com/NibiruChain/nibiru/v2/x/common/asset"
+
 	. "verifharness/genlib"
 )
 
@@ -132,8 +134,8 @@ func main() {
 		CoqBool(lenGuard), CoqBool(denomGuard), CoqBool(amountGuard), CoqBool(evmDenomGuard), CoqBool(erc20NulGuard), CoqBool(supplyGuard))
 	fmt.Printf("Definition current_facts : facts := {|\n  f_funtoken := funtoken_facts;\n  f_wasm := wasm_facts;\n  f_oracle := oracle_facts;\n  f_guards := current_guards;\n")
 	snapEach, maxCalls := snapshotFacts(repo)
-	fmt.Printf("  f_local_meter := %s;\n  f_oog_only := %s;\n  f_addr_conv_total := %s;\n  f_direct_ro := %s;\n  f_call_inherits_static := %s;\n  f_snap_each_call := %s;\n  f_max_calls := %d;\n  f_revert_decode_total := %s |}.\n",
-		CoqBool(localMeter), CoqBool(oogOnly), CoqBool(addrConvTotal), CoqBool(g.directRO), CoqBool(g.callInherits), CoqBool(snapEach), maxCalls, CoqBool(revertDecodeTotal(repo)))
+	fmt.Printf("  f_local_meter := %s;\n  f_oog_only := %s;\n  f_addr_conv_total := %s;\n  f_direct_ro := %s;\n  f_call_inherits_static := %s;\n  f_snap_each_call := %s;\n  f_max_calls := %d;\n  f_revert_decode_total := %s;\n  f_pair_validation_total := %s |}.\n",
+		CoqBool(localMeter), CoqBool(oogOnly), CoqBool(addrConvTotal), CoqBool(g.directRO), CoqBool(g.callInherits), CoqBool(snapEach), maxCalls, CoqBool(revertDecodeTotal(repo)), CoqBool(pairValidationTotal()))
 	fmt.Printf("(* geth fork %s: read-only argument of RunPrecompiledContract per wrapper; RequiredGas charged before Run *)\n", g.dir)
 	fmt.Printf("Definition geth_readonly_args : list (string * string) := [%s].\n", g.pairs)
 	fmt.Printf("Definition geth_charges_required_gas_first : bool := %s.\n", CoqBool(g.chargesFirst))
@@ -421,7 +423,7 @@ func loadABI(path string) gethabi.ABI {
 type handlerRef struct {
 	fn            string
 	plain         bool // a plain function, not a method of the precompile type
-	readonlyArgAt int // index of the Run's read-only parameter among the call arguments (-1: not passed)
+	readonlyArgAt int  // index of the Run's read-only parameter among the call arguments (-1: not passed)
 }
 
 type runInfo struct {
@@ -479,9 +481,12 @@ func flatParams(ft *ast.FuncType) []string {
 }
 
 // analyseRun understands a Run method that dispatches either with
-//   switch PrecompileMethod(<method>.Name) { case C: bz, err = p.h(…) … }
+//
+//	switch PrecompileMethod(<method>.Name) { case C: bz, err = p.h(…) … }
+//
 // or through a package-level table of handlers
-//   h, ok := table[PrecompileMethod(<method>.Name)]; if !ok { …; return }; …; bz, err = h(p, …)
+//
+//	h, ok := table[PrecompileMethod(<method>.Name)]; if !ok { …; return }; …; bz, err = h(p, …)
 func analyseRun(run *ast.FuncDecl, consts map[string]string) runInfo {
 	ri := runInfo{handlers: map[string]handlerRef{}}
 	pnames := flatParams(run.Type)
@@ -1311,12 +1316,13 @@ func addrConversionTotal(repo string) bool {
 
 // snapshotFacts reads x/evm/statedb: the method of *StateDB that receives a PrecompileCalled value (found by
 // the parameter's type, whatever it is called) and appends it to the journal.
-//   snapEach: the append is reached on EVERY call of that method - no statement before it can leave the method
-//             (a return anywhere inside an earlier statement) and the append itself is not nested in a branch
-//             or loop; same-package helpers the value is handed to are read at their call site.
-//   maxCalls: how many calls one StateDB admits: the method returns an error when its call counter compares
-//             above a package constant; N calls pass for `counter++ ; if counter > N`, the equivalent forms
-//             (>=, flipped operands, comparison before the increment) are folded. No such test: no limit (2^62).
+//
+//	snapEach: the append is reached on EVERY call of that method - no statement before it can leave the method
+//	          (a return anywhere inside an earlier statement) and the append itself is not nested in a branch
+//	          or loop; same-package helpers the value is handed to are read at their call site.
+//	maxCalls: how many calls one StateDB admits: the method returns an error when its call counter compares
+//	          above a package constant; N calls pass for `counter++ ; if counter > N`, the equivalent forms
+//	          (>=, flipped operands, comparison before the increment) are folded. No such test: no limit (2^62).
 func snapshotFacts(repo string) (snapEach bool, maxCalls int64) {
 	files := ParseDir(repo + "/x/evm/statedb")
 	methodsOf := methodDecls(files)
@@ -1510,6 +1516,38 @@ func callLimit(fd *ast.FuncDecl, consts map[string]int64) (int64, bool) {
 		}
 	}
 	return 0, false
+}
+
+// ---------------------------------------------------------------- the Oracle's pair validation, by running it
+
+// pairValidationTotal RUNS asset.TryNewPair (what the Oracle precompile applies to the untrusted pair string before
+// it becomes a collections string key) of the tree the generator is built against on a fixed table of hostile
+// strings: every well-formed pair with one byte (NUL, 0xff, space, newline, '!') inserted at every position,
+// garbage in front / behind, missing and duplicated separators.  true = every one of them is refused (the
+// validation judges the whole string of each side) and the well-formed controls are accepted.
+func pairValidationTotal() bool {
+	good := []string{"unibi:uusd", "ubtc:uusd", "abc:xyz", "u/n.i_b-i:uusd"}
+	for _, g := range good {
+		if _, err := asset.TryNewPair(g); err != nil {
+			return false
+		}
+	}
+	var hostile []string
+	for _, g := range good {
+		for _, b := range []string{"\x00", "\xff", " ", "\n", "!", "\x00\x00"} {
+			for i := 0; i <= len(g); i++ {
+				hostile = append(hostile, g[:i]+b+g[i:])
+			}
+		}
+		hostile = append(hostile, g+":", ":"+g, g+":"+g, strings.Replace(g, ":", "", 1), strings.Replace(g, ":", "::", 1), g+strings.Repeat("z", 200)+"\x00")
+	}
+	hostile = append(hostile, "", ":", "\x00", "a:b", "ab:cd\x00", "unibi:uusd\x00", "un\x00ibi:uusd")
+	for _, h := range hostile {
+		if _, err := asset.TryNewPair(h); err == nil {
+			return false
+		}
+	}
+	return true
 }
 
 // ---------------------------------------------------------------- decoding the revert data of a called contract
